@@ -538,3 +538,29 @@ mutant('C13', 'array accepts too many deletions', PAF, "if found != expected:", 
 mutant('C13', 'array linear field even in n', PAF, "return np.outer(np.sign(pos.dot(n)) * (0.25 - pos.dot(m) / (2 * length)), burgers)", "return np.outer((0.25 - pos.dot(m) / (2 * length)), burgers)", 'ARRAY')
 mutant('C13', 'array base not trimmed', PAF, "    base_system = base_system.atoms_ix[disl_system.atoms.old_id]\n", "", 'ARRAY')
 mutant('C13', 'disregistry initial box', DRF, "disp = displacement(basesystem, dislsystem)", "disp = displacement(basesystem, dislsystem, box_reference='initial')", 'DISREGISTRY')
+
+# ------------------------------------------------------------------ C18
+GSF = 'atomman/defect/GammaSurface.py'
+PNF = 'atomman/defect/SDVPN.py'
+ADRF = 'atomman/defect/pn_arctan_disregistry.py'
+ADDF = 'atomman/defect/pn_arctan_disldensity.py'
+mutant('C18', 'regress-F13 solve for a stack of positions', GSF, "a123 = np.linalg.solve(coeffs, pos.T).T", "a123 = np.linalg.solve(coeffs[None], pos)", None)
+mutant('C18', 'a12_to_pos swaps vectors', GSF, "return np.outer(a1, a1vect) + np.outer(a2, a2vect)", "return np.outer(a2, a1vect) + np.outer(a1, a2vect)", 'GAMMA-CONV')
+mutant('C18', 'xy_to_a12 x-axis not converted to Cartesian', GSF, "        if a1vect is not None and xvect is None:\n            xvect = np.dot(a1vect, self.box.vects)\n\n        pos = self.xy_to_pos(x, y, xvect=xvect)", "        if a1vect is not None and xvect is None:\n            xvect = np.asarray(a1vect, dtype=float)\n\n        pos = self.xy_to_pos(x, y, xvect=xvect)", 'GAMMA-CONV')
+mutant('C18', 'xy_to_pos forgets the inverse', GSF, "        transform = np.linalg.inv(transform)\n", "", 'GAMMA-CONV')
+mutant('C18', 'fit window lower a2 bound from a1 grid', GSF, "a2min = ua2[np.where(np.isclose(ua2, 0.0))[0][0] - 1] - 1e-8", "a2min = ua2[np.where(np.isclose(ua1, 0.0))[0][0] - 1] - 1e-8", 'GAMMA-FIT')
+mutant('C18', 'fit tiling offsets mismatched', GSF, "a2 = np.concatenate([a2-1, a2, a2+1, a2-1, a2, a2+1, a2-1, a2, a2+1])", "a2 = np.concatenate([a2-1, a2-1, a2-1, a2, a2, a2, a2+1, a2+1, a2+1])", 'GAMMA-FIT')
+mutant('C18', 'fit keeps duplicated edge', GSF, "shortdata = self.data[~(np.isclose(self.data.a1, 1.0) | np.isclose(self.data.a2, 1.0))]", "shortdata = self.data[~(np.isclose(self.data.a1, 1.0))]", 'GAMMA-FIT')
+mutant('C18', 'blend weight paired with wrong image', GSF, "+ x * (1 - y) * self.__E_gsf_fit(a1, a2+1)", "+ x * (1 - y) * self.__E_gsf_fit(a1+1, a2)", 'GAMMA-EGSF')
+mutant('C18', 'period reduction one-sided', GSF, "            while np.any(a1 < 0.0):\n                a1[a1 < 0.0] += 1.0\n", "", 'GAMMA-EGSF')
+mutant('C18', 'surface energy uses stored profile', PNF, "        δ = disregistry\n        Δx = x[1] - x[0]\n        β = self.beta", "        δ = self.disregistry\n        Δx = x[1] - x[0]\n        β = self.beta", 'PN-TERMS')
+mutant('C18', 'central density abscissa', PNF, "ρ = ((δ[2:] - δ[:-2]).T / (x[2:] - x[:-2])).T", "ρ = ((δ[2:] - δ[:-2]).T / (x[1:-1] - x[:-2])).T", 'PN-TERMS')
+mutant('C18', 'elastic kernel asymmetric', PNF, "- ψ(i, j-1, Δx) - ψ(j, i-1, Δx)", "- ψ(i, j-1, Δx) - ψ(i, j-1, Δx)", 'PN-TERMS')
+mutant('C18', 'elastic prefactor', PNF, "np.inner(ρ[i].dot(Kij), ρ)) / (4 * np.pi)", "np.inner(ρ[i].dot(Kij), ρ)) / (2 * np.pi)", 'PN-TERMS')
+mutant('C18', 'nonlocal neighbour average', PNF, "dd = δ[m:-m] - 0.5 * (δ[2*m:] + δ[:-2*m])", "dd = δ[m:-m] - (δ[2*m:] + δ[:-2*m])", 'PN-TERMS')
+mutant('C18', 'short stress expression sign', PNF, "            τ = -τ\n", "", 'PN-TERMS')
+mutant('C18', 'total energy drops non-local term', PNF, "                + self.nonlocal_energy(x, disregistry)\n", "", 'PN-TOTAL')
+mutant('C18', 'solve varies the end points', PNF, "d13 = np.concatenate([d[1:-1, 0], d[1:-1, 2]])", "d13 = np.concatenate([d[:-2, 0], d[:-2, 2]])", 'PN-SOLVE')
+mutant('C18', 'solve writes z into y', PNF, "d[1:-1, 2] = d13[half:]", "d[1:-1, 1] = d13[half:]", 'PN-SOLVE')
+mutant('C18', 'arctan density half-width squared missing', ADDF, "disldensity = np.outer(halfwidth / ((x - center)**2 + halfwidth**2), burgers / np.pi)", "disldensity = np.outer(1 / ((x - center)**2 + halfwidth**2), burgers / np.pi)", 'ARCTAN')
+mutant('C18', 'arctan disregistry centre sign', ADRF, "np.arctan((x - center) / halfwidth)", "np.arctan((x + center) / halfwidth)", 'ARCTAN')
